@@ -201,3 +201,15 @@ impl<'p> ObjectData<'p> {
         self.fields_order.get().expect("harness objects carry a cached field order")
     }
 }
+
+impl<'p> Evaluator<'_, 'p> {
+    /// Stubs for the builtin / native dispatch tables behind `execute_call` (they make every builtin reachable):
+    /// harnesses that keep `execute_call` real only call user-defined and identity functions.
+    pub(in crate::program) fn kstub_execute_built_in_call(&mut self, _kind: crate::program::data::BuiltInFunc, _args: &[Gc<ThunkData<'p>>]) {
+        panic!("run-step harness: builtin dispatch reached")
+    }
+
+    pub(in crate::program) fn kstub_execute_native_call(&mut self, _name: InternedStr<'p>, _args: &[Gc<ThunkData<'p>>]) {
+        panic!("run-step harness: native dispatch reached")
+    }
+}
